@@ -122,6 +122,10 @@ _wire("C17", 40, 900,
       "each run builds a SplitListener over the real listener with a tape-chosen set of sub-listeners (three specific names, __AUTH__, __UNAUTH__, each present or not, native connections on/off, GetListener sometimes called twice) and an application base TLS config in {none, no ALPN, fixed protocols, mirroring whatever the client offers}; 3-9 clients follow: authenticated nodes with extra-protocol lists (matching none / one / several registered names, the reserved names, near-misses), base-TLS clients offering tape-ordered lists that include the reserved names, registered names, near-misses and names under the certificate-preference prefix, fetch-only (unauthorized) nodes and raw garbage; finally the base listener is closed. All goroutines (split loop, one acceptor per sub-listener, clients) run under the seeded lock-aware scheduler. Non-trivial: all; distinct by (client kind, offered names, registered set, destination, negotiated protocol).",
       ["which of several matching specific sub-listeners receives an authenticated connection is not judged (sync.Map iteration order)",
        "a 'mirroring' application base config is part of the configuration space: the statement quantifies over base-TLS clients offering arbitrary names"])
+_wire("C15", 45, 900,
+      "each run draws a plan: 2-6 clients from {authentication with own client state and extra protocols, authorized node-led fetch+authentication, unauthorized fetch, token enrollment with distinct per-token state, rejected authentication of a removed node}, 2-4 acceptor goroutines, and the listener's option slice with tape-chosen length 0-4 and spare capacity 0-8. The plan is executed twice in fresh identical worlds: one client at a time, then all clients concurrently with every simstore call and every simnet read/write/accept as a scheduling point of the seeded scheduler (with per-run priorities for long overtakes). Non-trivial: every plan with >=2 clients; distinct by (client kinds, option slice shape, acceptors, schedule hash).",
+      ["isolation is decided by differential execution: per client the tuple (dial result, accept result, negotiated-protocol class, ClientState, ClientNextProtos tail, node record existence and state, token consumed) must be equal in both executions; connections are attributed to clients by a unique marker protocol each client offers",
+       "literal data-race freedom is not decided by the serialising scheduler (consequences of unsynchronised sharing are); the thorough tier adds an auxiliary free-running -race stress (bin/racestress)"])
 
 HOOK_COMMITS = ["54f90f1 (H2: net/splitlistener.go scheduling points + net/verif_hook_{on,off}.go)",
                 "c914c74 (H1: protocol/dialer.go SimDial seam + protocol/verif_hook_{on,off}.go)"]
@@ -132,6 +136,7 @@ NOT_APPLICABLE["C20"] = ("pure function of its arguments (BreakIntoNextProtos/Co
                          "its failure modes are reached by the simulated workloads of C14 (malformed entries in a hostile ClientHello) and C07/C16 (honest payloads needing >99 chunks)")
 
 LEVEL_TEXT = {
+    "C15": "seeded schedule exploration of concurrent handshakes on one real listener (scheduling points at the storage and network seams), with isolation decided by differential execution against a one-at-a-time run of the same plan.",
     "C17": "seeded simulation of authenticated, base-TLS, fetch-only and garbage clients against the real SplitListener stack under the deterministic scheduler; each delivery is judged against a routing model (authenticated peers only on non-__UNAUTH__ listeners, destination rule, connection type, closure).",
     "C07": "seeded simulation of honest dial histories across root rotations, of the pending-then-authorized path, and of rogue-server constructions; every completed dial is checked against the node's stored roots and the connection's own nonce, every expected-successful dial must succeed.",
     "C16": "seeded simulation of honest dials with varied client state and ALPN extras against the real listener; the application-visible metadata is compared with what the node supplied and with the ClientHello captured on the simulated wire; adversarial unsigned/forged state must never reach the application.",
@@ -151,6 +156,7 @@ LEVEL_TEXT = {
     "C18": "seeded exploration of interleavings of ingress/accept/close/cancel on the real MultiplexingListener under a lock-aware deterministic scheduler; invariants (exactly-once delivery xor close, no panic, Close returns, accept-after-close) checked after every step and at quiescence. Sampling: small bags usually saturate their schedule space, exhaustiveness is not claimed.",
 }
 TECHNIQUE = {
+    "C15": "deterministic simulation: seeded scheduler over storage/network seams for concurrent TLS handshakes; differential oracle (concurrent vs one-at-a-time execution of the same plan)",
     "C13": "deterministic simulation with enumerated fault injection at the Storage seam (single faults complete, double faults sampled); durability/fail-closed oracle against the inner back end",
     "C18": "deterministic simulation: seeded lock-aware scheduler over hook-H2 points in a synctest bubble; invariants per step + bounded-liveness at quiescence; tape shrinking",
 }
